@@ -1360,7 +1360,7 @@ def rule_X4(F, R, clauses=('parse', 'order', 'model', 'retain', 'export', 'vars'
                     for y_ in list(nodes_):
                         if y_['k'] == 'Closure' and canon(y_['def']) in binc.ithir: nodes_.extend(walk(binc.ithir[canon(y_['def'])]['body']))
                     rv_ = root_var(arg_)
-                    if rv_ is not None and strip(arg_)['k'] in ('VarRef', 'UpvarRef'):
+                    if rv_ is not None:
                         for b2_ in walk(body):
                             if b2_['k'] == 'Block':
                                 for st2_ in b2_['stmts']:
@@ -2650,6 +2650,37 @@ def row_text(binc, t, k):
         if k_ == 'If' or k_ == 'Loop' or k_ == 'Match': raise _RowUndec('control flow %s in the row printer' % k_)
     run(t['body'], {})
     return ''.join(out)
+
+def rule_X12_header(F, R):
+    """C10: the header names the columns: print_header walks its labels and writes each one to standard output (a header whose loop no
+    longer prints the label leaves the table without column names)"""
+    import engine_l as _el
+    binc = F.bin()
+    t = binc.ithir.get('rsbdd::print_header')
+    if t is None:
+        import facts as _facts
+        if _facts.baseline_private('rsbdd::print_header'): R.count('X12:header-printer-gone'); return
+        R.violation('rsbdd::print_header / X12 / anchor', 'UNDECIDABLE', 'print_header not found'); return
+    lp = unwrap_pat(t['params'][0]['pat']).get('var') if t['params'] and 'pat' in t['params'][0] else None
+    ok = False
+    for (it, pat, body) in _el.for_loops(t['body']):
+        src = strip(it)
+        while src['k'] == 'Call' and src['args'] and (callee_name(src) or '').split('::')[-1] in ('iter', 'into_iter', 'zip', 'enumerate', 'by_ref', 'cloned', 'copied'): src = strip(src['args'][0])
+        if root_var(src) != lp: continue
+        pvs = set(walk_pat_bindings(pat))
+        for x in walk(body):
+            if is_stdout_write(x) and any(y['k'] in ('VarRef', 'UpvarRef') and y['var'] in pvs for y in walk(x)): ok = True
+        # a line assembled first and printed after the loop: the label reaches a String that is printed
+        if not ok:
+            pushed = set(root_var(x['args'][0]) for x in walk(body) if x['k'] == 'Call' and (callee_name(x) or '') in ('std::string::String::push_str', 'std::vec::Vec::push') and
+                         any(y['k'] in ('VarRef', 'UpvarRef') and y['var'] in pvs for y in walk(x['args'][1])))
+            ok = any(is_stdout_write(x) and any(y['k'] in ('VarRef', 'UpvarRef') and y['var'] in pushed for y in walk(x)) for x in walk(t['body']))
+    if not ok:
+        # iterator forms: labels.iter().map(|l| format!(.. l ..)).collect / for_each(|l| print!(..))
+        for x in walk(t['body']):
+            if x['k'] == 'Call' and callee_decl(x) in ('std::iter::Iterator::map', 'std::iter::Iterator::for_each') and len(x['args']) == 2 and root_var(x['args'][0]) == lp: ok = True
+    R.count('X12:header-labels'); R.obligation(ok, 'X12 header labels')
+    if not ok: R.violation('rsbdd::print_header / X12 / column names', 'X12', 'the header must write every label it is given: no write to standard output mentions the label of the loop over the labels', t['span']['loc'])
 
 def rule_X12(F, R):
     """C10: a table row has one cell per column of the header - `|`, then ` cell |` for every free variable, then ` result |` - for every
